@@ -34,13 +34,18 @@ pub fn cache_shape(setmask: u16, next_sel: u16) -> u16 {
 }
 /// bit 11 of a cache shape: apply the setters in descending instead of ascending order (the result must not depend on it)
 pub const CACHE_REVERSED: u16 = 1 << 11;
+/// bit 12 of a cache shape: every selected setter is applied twice with the same argument (a repeated write changes nothing)
+pub const CACHE_TWICE: u16 = 1 << 12;
 pub fn real_cache(f: &Fill, setmask: u16, next: Option<&pptt::CacheHandle>) -> pptt::CacheNode {
     use pptt::{AllocationType as A, CacheType as C, WritePolicy as P};
     let mut b = pptt::CacheNodeBuilder::default();
     if let Some(h) = next {
         b = b.next_level(h);
     }
-    let order: Vec<u16> = if setmask & CACHE_REVERSED != 0 { (0..8).rev().collect() } else { (0..8).collect() };
+    let mut order: Vec<u16> = if setmask & CACHE_REVERSED != 0 { (0..8).rev().collect() } else { (0..8).collect() };
+    if setmask & CACHE_TWICE != 0 {
+        order = order.iter().flat_map(|b| [*b, *b]).collect();
+    }
     for bit in order {
         if setmask & (1 << bit) == 0 {
             continue;
@@ -154,7 +159,7 @@ impl Table for Pptt {
         }
         for (n, ns) in nexts.iter().enumerate() {
             let f = fl[n % fl.len()];
-            v.push(Op::new(P_CACHE, cache_shape(if n % 2 == 0 { 0xff } else { 0 }, *ns) | if n == 0 { CACHE_REVERSED } else { 0 }, f));
+            v.push(Op::new(P_CACHE, cache_shape(if n % 2 == 0 { 0xff } else { 0 }, *ns) | if n == 0 { CACHE_REVERSED } else if n == 2 { CACHE_TWICE } else { 0 }, f));
         }
         if hist.iter().filter(|o| o.k == P_CACHE_DEFAULT).count() < 1 {
             v.push(Op::new(P_CACHE_DEFAULT, 0, 0));
@@ -194,7 +199,7 @@ impl Table for Pptt {
             } else {
                 let (mask, nsel) = (s & 0xff, (s >> 8) & 7);
                 let next = if nsel == 0 { None } else { Some(&ch[sel(nsel - 1, ch.len())]) };
-                let h = t.add_cache(real_cache(f, mask | (s & CACHE_REVERSED), next));
+                let h = t.add_cache(real_cache(f, mask | (s & (CACHE_REVERSED | CACHE_TWICE)), next));
                 seen.push(parse_handle(format!("{:?}", h)));
                 ch.push(h);
             }
@@ -286,7 +291,7 @@ impl Table for Pptt {
         } else if k == P_CACHE_DEFAULT {
             vec![0]
         } else {
-            vec![cache_shape(0xff, 0), cache_shape(0xff, 0) | CACHE_REVERSED, cache_shape(0, 0), cache_shape(0xff, 1), cache_shape(0x55, 1), cache_shape(0xaa, 0), cache_shape(0x38, 0) | CACHE_REVERSED]
+            vec![cache_shape(0xff, 0), cache_shape(0xff, 0) | CACHE_REVERSED, cache_shape(0, 0), cache_shape(0xff, 1), cache_shape(0x55, 1), cache_shape(0xaa, 0), cache_shape(0x38, 0) | CACHE_REVERSED, cache_shape(0xff, 0) | CACHE_TWICE, cache_shape(0x38, 0) | CACHE_TWICE | CACHE_REVERSED]
         }
     }
     fn prelude(&self, _k: u8, _shape: u16) -> Vec<Op> {
